@@ -519,10 +519,10 @@ def replay(rec):
     want = [v for k_, v in words.items() if k_ in low]
     chosen = [fc for fc in cat if any(fc.name.startswith(w) or (w in fc.name and w != "Naive(" and w != "Trend(") for w in want)]
     if not chosen:
-        keep = ("Naive(last)", "Naive(mean,sp=3,w=7)", "Trend(1)", "ExpSmoothing(trend=add)", "Theta(sp=4)", "Reduce(recursive,tabu,w=3)", "Reduce(direct,tabu,w=3)",
+        keep = ("Naive(last)", "Trend(1)", "ExpSmoothing(trend=add)", "Theta(sp=4)", "Reduce(recursive,tabu,w=3)", "Reduce(direct,tabu,w=3)",
                 "Ensemble(Naive,Trend)", "Pipeline(Detrender,Naive)", "Stacking(Naive(drift),Trend)", "Multiplex(selected=Trend)", "GridSearch(Naive)")
         chosen = [fc for fc in cat if fc.name in keep]
-    chosen = chosen[:8]
+    chosen = chosen[:11]
     vals = _values(0)
     with warnings.catch_warnings(), _one_thread():
         warnings.simplefilter("ignore")
